@@ -281,7 +281,7 @@ func TestC01RoundTrip(t *testing.T) {
 			}
 		}
 
-		mode := rapid.SampledFrom([]string{"resource", "document", "member"}).Draw(t, "mode")
+		mode := rapid.SampledFrom([]string{"resource", "document", "member", "collection"}).Draw(t, "mode")
 		prepath := rapid.SampledFrom([]string{"", "/", "https://h", "https://h/api/"}).Draw(t, "prepath")
 
 		var (
@@ -309,6 +309,41 @@ func TestC01RoundTrip(t *testing.T) {
 					if err == nil {
 						got, _ = d2.Data.(jsonapi.Resource)
 					}
+				}
+			case "collection":
+				// MarshalCollection / UnmarshalCollection directly. The payload
+				// is kept while another collection is marshaled (a payload
+				// belongs to the caller once it was returned).
+				fields := map[string][]string{}
+				for i := range ss.Types {
+					fields[ss.Types[i].Name] = ss.Types[i].Fields()
+				}
+
+				col := &jsonapi.Resources{}
+				col.Add(res)
+
+				payload = jsonapi.MarshalCollection(col, prepath, fields, allRelData(ss))
+				kept := append([]byte{}, payload...)
+
+				decoy := &jsonapi.Resources{}
+				for i := 0; i < 2; i++ {
+					d := gen.NewResource(ts)
+					d.Set("id", fmt.Sprintf("decoy-%d", i))
+					decoy.Add(d)
+				}
+
+				_ = jsonapi.MarshalCollection(decoy, prepath, fields, allRelData(ss))
+
+				if string(kept) != string(payload) {
+					err = fmt.Errorf("the payload returned by MarshalCollection changed when another collection was marshaled:\nbefore: %s\nafter:  %s", kept, payload)
+					return
+				}
+
+				var c jsonapi.Collection
+
+				c, err = jsonapi.UnmarshalCollection(payload, ss.Schema)
+				if err == nil && c != nil && c.Len() == 1 {
+					got = c.At(0)
 				}
 			case "member":
 				// The other member comes first and is of another type when the
